@@ -202,4 +202,31 @@ Section P.
     - apply hserialize_pretty_go_no_panic. apply gen_outputs_prefix_on_element.
     - apply hserialize_go_no_panic. apply gen_outputs_prefix_on_element.
   Qed.
+  (* a declaration is written as xmlns="uri" or xmlns:p="uri" with the URI escaped, or not at all; the state does not change;
+     the implicit binding of the xml prefix and a prefix bound to "no namespace" are never written; a default-namespace
+     declaration is written only for the element's own namespace *)
+  Theorem hprefix_token_spec cdata st z p ns st' t :
+    hrender nm hn cdata st z (OPrefix p ns) = HOk (st', t) ->
+    st' = st
+    /\ (token_text t = []
+        \/ (p = n_empty_prefix nm /\ (exists name, element_of z = Some name /\ n_ns_of_name nm name = ns)
+            /\ token_text t = [32] ++ s_xmlns ++ [61; 34] ++ serialize_attribute (n_ns_str nm ns) ++ [34])
+        \/ (p <> n_empty_prefix nm /\ ns <> n_no_ns nm /\ ~ (p = n_xml_prefix nm /\ ns = n_xml_ns nm)
+            /\ token_text t = [32] ++ s_xmlns ++ [58] ++ n_prefix_str nm p ++ [61; 34] ++ serialize_attribute (n_ns_str nm ns) ++ [34])).
+  Proof.
+    cbn [hrender]. intros H. destruct (element_of z) as [name|] eqn:He; [|discriminate].
+    destruct (N.eqb p (n_xml_prefix nm) && N.eqb ns (n_xml_ns nm)) eqn:EA; cbn [orb] in H.
+    { inversion H; subst st' t. split; [reflexivity|left; reflexivity]. }
+    destruct (N.eqb_spec p (n_empty_prefix nm)) as [Hp|Hp]; cbn [negb andb orb] in H.
+    - destruct (N.eqb_spec (n_ns_of_name nm name) ns) as [Hn|Hn]; cbn [negb andb orb] in H;
+        inversion H; subst st' t; (split; [reflexivity|]); [|left; reflexivity].
+      right; left. split; [exact Hp|]. split; [exists name; split; [reflexivity|exact Hn]|reflexivity].
+    - destruct (N.eqb_spec ns (n_no_ns nm)) as [Hn|Hn]; cbn [negb andb orb] in H.
+      { inversion H; subst st' t. split; [reflexivity|left; reflexivity]. }
+      match type of H with (if ?c then _ else _) = _ => destruct c end;
+        inversion H; subst st' t; (split; [reflexivity|]); [left; reflexivity|].
+      right; right. split; [exact Hp|]. split; [exact Hn|]. split; [|reflexivity].
+      intros [Hx Hy]. rewrite Hx, Hy, !N.eqb_refl in EA. discriminate EA.
+  Qed.
+
 End P.
